@@ -22,10 +22,12 @@ def parseOp : List String → Option Op
     some (.checkOnly (← toInt? now) (← parseAddr addr) (← dec act))
   | ["throttle", now, addr, act] => do
     some (.throttleOnly (← toInt? now) (← parseAddr addr) (← dec act))
-  -- `par <now> <addr> <action> <n> <mode> <m>`: the mode (how the goroutines are released) is the harness's
-  -- business; the `m` checks that run alongside the failures change nothing (`C17_concurrent_checks_harmless`)
-  | ["par", now, addr, act, n, _mode, _m] => do
-    some (.par (← toInt? now) (← parseAddr addr) (← dec act) (← toNat? n))
+  -- `par <now> <addr> <action> <n> <mode> <m> <dt>`: the mode (how the goroutines are released) and the
+  -- number `m` of checks made at `now + dt` alongside the failures are the harness's business: no
+  -- interleaving loses a record (`C17_concurrent_no_record_lost`), so what is left at rest is what one
+  -- check at `now + dt` leaves
+  | ["par", now, addr, act, n, _mode, _m, dt] => do
+    some (.par (← toInt? now) (← parseAddr addr) (← dec act) (← toNat? n) (← toNat? dt))
   | _ => none
 
 def showList {α : Type} (f : α → String) (pfx : String) (l : List α) : String :=
@@ -49,9 +51,11 @@ def parseOut : List String → Option Out
   | ["passed"] => some .passed
   | ["delayed", ns] => (toNat? ns).map .delayed
   | ["none"] => some .none
-  -- the trailing `r:` token (raw records) is compared with the model's state as text only
+  -- the trailing `r:` token (records) is compared with the model's state as text only; `D:` = delays whose
+  -- pairing with counts depends on the interleaving (dropped from the textual comparison)
   | ["rest", p, r, b, ds, _recs] => do
-    some (.rest (← toNat? p) (← toNat? r) (b == "1") (← parseNats "d:" ds))
+    some (.rest (← toNat? p) (← toNat? r) (b == "1")
+      (← (parseNats "d:" ds).orElse fun _ => parseNats "D:" ds))
   | _ => none
 
 structure St where
@@ -82,10 +86,16 @@ def step (st : St) (op impl : List String) : St × String × String :=
     let (j', v) := match parseOut impl with
       | some io => st.judge.observe o io
       | none => (st.judge, "na")
-    -- a `par` also shows the records of its key/kind at rest (the model's state itself is compared)
-    let shown := match o with
-      | .par _ addr a _ => showOut out ++ " " ++ showList toString "r:" (m' (throttleKey addr) a)
-      | _ => showOut out
+    -- a `par` also shows the records of its key/kind at rest (the model's state itself is compared):
+    -- those not older than twelve hours at `now + dt` — whether an expired record is still in the list
+    -- depends on which of the concurrent checks saw the address blocked
+    let shown := match o, out, op with
+      | .par now addr a _ dt, .rest p r b ds, [_, _, _, _, _, _, m, _] =>
+        let recs := (m' (throttleKey addr) a).filter fun t => decide (now + dt - t ≤ (stmtAge : Int))
+        let loose := dt != 0 && m != "0"
+        s!"rest {p} {r} {if b then 1 else 0} " ++ showList toString (if loose then "D:" else "d:") ds
+          ++ " " ++ showList toString "r:" recs
+      | _, _, _ => showOut out
     ({ model := m', judge := j' }, shown, v)
 
 end SigModel.Driver.C17
